@@ -31,6 +31,39 @@ CLAIMED = {
    text="Stats.tla models per-worker per-client and aggregated recorders, the snapshot queue and the reporter; TLC checks Conservation, Bounded, UntrackedZero, MergePreserves, Equivalent and the action property Exclusive on every sequence of the 8 recording ops x 3 addresses (+ snapshot/merge/report) up to 3 (quick) / 4 with 2 workers (thorough) ops, and emits one behaviour per transition; each is executed on real PerClientStats(limit)/AggregatedStats/StatsQueue/Reporter objects logging the projection after every op, and TLC validates every step of those logs and of seeded sequences up to 10,000 ops (Trace_Stats.tla: logged post-state must be an allowed outcome; invariants evaluated in every state).",
    note="Property level allows either counting or overflowing an event for an already-tracked address when the table is full (code overflows). Snapshot replicates Server::send_client_stats on library objects; the running server's wiring is checked by the server suite stage when present.",
    technique="TLA+ state machine + TLC; behaviours replayed into the real recorders; step-wise trace validation against Stats.tla"),
+
+ "C02": dict(level="model_checking", ref="6 C02",
+   text="ServerAbs.tla states what every non-fault-injected response must satisfy for the request it answers (signature chain under the long-term key with the protocol's contexts, delegation window, VER/VERS, inclusion proof binding that request under the protocol's hash width at every node, nonce echo, framing); an in-process Server with batch_size 1..64 is driven over consecutive rounds of mixed bursts; every emitted datagram is turned into atomic facts by an independent verifier (own codec, sha2, ed25519-dalek) and TLC validates the whole trace (Trace_Server.tla), including the 6-sigma fault-injection rate over >= 2000 replies per p and the dichotomy for injected replies. Thorough also validates replies of the real server binary.",
+   note="Cryptographic equalities are decided by sha2 / ed25519-dalek inside the interpretation; the relation over the execution is decided by TLC. Statistical acceptance region for the fault rate (6 sigma).",
+   technique="trace validation of a real in-process Server against the property-level TLA+ spec ServerAbs.tla; independent verifier supplies facts"),
+ "C07": dict(level="model_checking", ref="6 C07",
+   text="Request.tla classifies every datagram (must / must not / may be answered) from features computed by the interpretation; TLC proves the classification theorems over the enumerated feature space; an in-process Server receives every request length 1016..1508 step 4 for both protocols, unaligned neighbours, nonces of every aligned length, full batches of 64 at maximum path depth, and seeded truncated/extended/field-mutated/random datagrams up to 65507 bytes, each followed by a sentinel; TLC validates the trace: no response to a must-not datagram and no response longer than its request.",
+   note="A non-standard nonce length is 'may'. Loopback UDP assumed synchronous; rounds in which the kernel dropped datagrams are discarded (counted).",
+   technique="TLA+ classification (Request.tla) + trace validation of a real in-process Server against ServerAbs.tla"),
+ "C08": dict(level="model_checking", ref="6 C08",
+   text="Server.tla (edge-triggered poll/drain loop, one action per code section) is model-checked for NoStranded and the liveness property Responsive with datagrams arriving at any step; an in-process Server is driven with hostile datagram sequences at every log level Off..Trace (capturing logger that formats every record), fault_percentage 0/50 and several batch sizes, each process_events call under catch_unwind; TLC rejects any round with a panic, a wedge (worker idle while the kernel still queues datagrams for it) or an unanswered valid request.",
+   note="Wedge detection reads the socket's rx_queue from /proc/net/udp; a panic is caught per call and the same Server object keeps being used.",
+   technique="TLC safety+liveness on Server.tla; trace validation of a real in-process Server against ServerAbs.tla"),
+ "C09": dict(level="model_checking", ref="6 C09",
+   text="Server.tla is model-checked (AtMostOnce, OwnSlot, ExactlyOnce at quiescence, OwnProtocol, NoReplyToInvalid, NoStranded, BatchBound, Responsive) for batch sizes 1..3 and 4 (thorough 5) datagrams of kinds {classic, IETF, invalid} arriving at any step; every arrival schedule that runs to quiescence is replayed into the real Server through the synchronous hook tracer (arrivals before poll, after the k-th recv, after a WouldBlock); bursts from 48 sockets with several requests per socket, identical nonces, late arrivals and batch sizes 1..64 are recorded; TLC validates all traces against ServerAbs.tla (exactly one response, to its sender, own nonce, own proof, own protocol). The spec's stranding variant is used as a self-test.",
+   note="Arrival points are reproduced at hook events inside collect_requests; facts about replies come from the interpretation.",
+   technique="TLC on Server.tla (refines ServerAbs.tla); arrival schedules replayed through hooks; trace validation"),
+ "C10": dict(level="model_checking", ref="6 C10",
+   text="Identity.tla models (re)starts creating online keys and certificates through the incremental long-term signer (SignedByLTK, CtxSeparated, StableIdentity; the non-clearing signer variant violates SignedByLTK); in-process servers are started with RFC 8032 vector seeds, degenerate and random seeds, repeatedly and interleaved in one process, and TLC validates that every certificate on the wire verifies under PK(seed) with the protocol's context only and that the announced key is PK(seed); LongTermKey/OnlineKey are probed directly for every seed (public key, SRV value, several certificates per object, delegation window containing midpoints for clocks from the epoch to year 9999).",
+   note="PK(seed) and SHA-512 are computed by ed25519-dalek / sha2 (oracle).",
+   technique="TLC on Identity.tla; trace validation of real servers per seed; direct probes of LongTermKey"),
+ "C11": dict(level="model_checking", ref="6 C11",
+   text="Clock.tla defines the midpoint digits (base-10^6 tuples) for both protocols and the 5 s radius; TLC enumerates 13 boundary second values x 10 nanosecond values x 2 protocols and the cases are replayed through OnlineKey::make_srep; 12,000 (thorough 100,000) seeded clocks from the epoch to year 9999 are recorded and re-decided by TLC (Trace_Clock.tla); live in-process servers are bracketed by harness clock readings per request, including a drain loop kept busy for longer than the radius.",
+   note="64-bit values are converted to digit tuples by the harness (TLC ints are 32-bit); harness and server read the same system clock.",
+   technique="TLA+ arithmetic spec + TLC enumeration replayed into make_srep; trace validation of recorded clocks and live replies"),
+ "C12": dict(level="model_checking", ref="6 C12",
+   text="TLC enumerates all 5461 VER lists of length 0..6 over {draft-13, classic 0, two unknown numbers} x SRV {absent, this server, another server} (16383 cases) from Request.tla and checks the classification theorems; each case is sent to an in-process Server followed by a sentinel, plus the 256 single-bit SRV corruptions, wrong SRV lengths and another server's value; TLC validates reply presence per class and the signed VER/VERS fields.",
+   note="draft-13 beyond the fourth VER entry is 'may'.",
+   technique="TLC enumeration from Request.tla replayed into a real in-process Server; trace validation against ServerAbs.tla"),
+ "C20": dict(level="model_checking", ref="6 C20",
+   text="For several seeds x every log level Off..Trace x fault_percentage 0/50 an in-process Server handles valid, invalid and fault-injected traffic with a capturing logger; every emitted datagram and every formatted log record is scanned for the seed, SHA-512(seed)[0..32] and the clamped private scalar in raw, hex (both cases) and base64 (standard, url-safe) forms; the scan results are facts in the trace and TLC rejects any event carrying one (Trace_Server.tla). Thorough adds stdout/stderr and datagrams of the real server binary for file and environment configuration sources.",
+   note="The decisive observation is a byte scan; low-variety seeds are not searched in raw form.",
+   technique="trace validation against ServerAbs.tla with leak facts from a byte scan"),
 }
 PENDING_REASON = "check not built yet in this session (see DESIGN.md section 6 for the planned TLA+ treatment)"
 
